@@ -1102,11 +1102,15 @@ class OdeSystem(object):
 
         except KeyboardInterrupt as e:
             self.__int_status = e
+            # slopes cached by the integrator may belong to an attempt that was never recorded
+            self.initialise_integrator(preserve_states=True)
             raise e
         except Exception as e:
             new_e = etypes.FailedIntegration("Failed to integrate system")
             new_e.__cause__ = e
             self.__int_status = new_e
+            # slopes cached by the integrator may belong to an attempt that was never recorded
+            self.initialise_integrator(preserve_states=True)
             raise new_e
         else:
             if self.__int_status != 2 and not isinstance(self.__int_status,
